@@ -4,7 +4,7 @@
 # needs /repo untouched).  Confirmation runs against /repo itself are done with tools/seedconfirm.sh.
 set -u
 PATCH="$(readlink -f "$1")"; shift
-S=/tmp/seedtest
+S=${SEEDTEST_DIR:-/tmp/seedtest}
 mkdir -p $S
 if [ ! -d $S/repo ]; then git -C /repo worktree add -q --detach $S/repo HEAD; fi
 git -C $S/repo checkout -q --detach "$(git -C /repo rev-parse HEAD)" && git -C $S/repo checkout -q -- . && git -C $S/repo clean -fdq -e target
